@@ -312,7 +312,16 @@ func genC17(r *RNG, idx int) C17Case {
 			args = []string{pl, fmt.Sprint(100 + r.Intn(900)), fmt.Sprint(r.Intn(6) - 1), players[r.Intn(len(players))]}
 		case "PlayerReserve", "PlayerRedeemChips":
 			args = []string{pl, fmt.Sprint(100 + r.Intn(900)), fmt.Sprint(r.Intn(6) - 1)}
-		case "PlayerJoin", "PlayerSettlementFinish", "PlayersLeave", "PlayerReady", "PlayerCall", "PlayerAllin", "PlayerCheck", "PlayerFold", "PlayerPass":
+		case "PlayersLeave":
+			switch r.Intn(4) {
+			case 0:
+				args = []string{} // nobody: still a call that must reach the engine (or be refused for an unknown table)
+			case 1:
+				args = []string{pl, players[r.Intn(len(players))]}
+			default:
+				args = []string{pl}
+			}
+		case "PlayerJoin", "PlayerSettlementFinish", "PlayerReady", "PlayerCall", "PlayerAllin", "PlayerCheck", "PlayerFold", "PlayerPass":
 			args = []string{pl}
 		case "PlayerExtendActionDeadline", "PlayerPay", "PlayerBet", "PlayerRaise":
 			args = []string{pl, fmt.Sprint(1 + r.Intn(50))}
